@@ -120,6 +120,16 @@ CHECKS["C12"] = dict(category="exploration",
            "content) and the parent record is compared before/after. 1078 deterministic placement cases plus sampled records.",
       note="Trusted: Biopython GenBank I/O. Equal-coordinate areas are not judged for numbering (C10's tie question).",
       design="3/C12")
+CHECKS["C05"] = dict(category="exploration",
+      technique="bounded-exhaustive enumeration of protocluster multisets on small records + Hypothesis layouts, statement predicates P1-P13 and an exact differential against a union-find reference model, all input permutations",
+      text="Protocluster multisets (shared defining genes, nesting, identical coordinates, chains, groups meeting only across the origin) are "
+           "enumerated exhaustively for up to 3-4 protoclusters on a coordinate grid and sampled beyond; create_candidates_from_protoclusters "
+           "is run for every permutation (<=5 protoclusters) and through Record.create_candidate_clusters; coverage, span, uniqueness, "
+           "transitive hybrid/interleaved/neighbouring grouping, singles and permutation invariance are asserted, plus equality with an "
+           "independent reference grouping model.",
+      note="Whether a promoted member of an interleaved group keeps a single is left open (statement, docstring and test_overlap_interleave "
+           "disagree). Span of >= L/2 groups follows the C04 connect contract.",
+      design="3/C05")
 NOT_YET = {}
 
 def main():
